@@ -41,7 +41,7 @@ print(json.dumps(out))
         except Exception:
             print(c["name"], "CRASH", r.stderr[-500:]); continue
         print(f"[{c['name']}] prop={c['prop']} expect={c.get('expect', 'violation')}: {len(out)} non-proved outside known regions")
-        for o in out[:6]:
+        for o in ([x for x in out if x[1] == "safety"][:3] + out[:3]):
             print("     ", o)
     finally:
         shutil.rmtree(d, ignore_errors=True)
